@@ -902,6 +902,42 @@ def is_stop(gd):
     return oracle.is_stopping(to_oracle(gd))[0]
 
 
+def _small_options(n):
+    h, q, tq = F(1, 2), F(1, 4), F(3, 4)
+    pr = [[(F(1), 0)]]
+    pl = [[("a", 0)]]
+    if n == 2:
+        pr += [[(F(1), 1)], [(h, 0), (h, 1)], [(h, 1), (h, 0)], [(q, 0), (tq, 1)], [(tq, 0), (q, 1)], [(h, 0), (h, 0)], [(h, 1), (h, 1)]]
+        pl += [[("a", 1)], [("a", 0), ("b", 1)], [("a", 1), ("b", 0)], [("a", 0), ("b", 0)], [("a", 1), ("b", 1)], [("a", 0), ("a", 1)]]
+    else:
+        pl += [[("a", 0), ("b", 0)]]
+    return [(PR, t) for t in pr] + [(P1, t) for t in pl] + [(P2, t) for t in pl]
+
+
+def small_game_count():
+    c1 = len(_small_options(1)) * 1 * 3
+    o2 = len(_small_options(2))
+    return c1 + o2 * o2 * 4 * 9
+
+
+def small_game(index):
+    """The index-th game of the complete enumeration of all games with one or two states over a small alphabet of owners,
+    transition lists (self-loops, parallel edges, repeated labels), final lists (order, both states) and rewards 0..2."""
+    o1 = _small_options(1)
+    c1 = len(o1) * 3
+    if index < c1:
+        owner, tr = o1[index // 3]
+        return {"rewards": [F(index % 3)], "players": [owner], "transition_list": [list(tr)], "final_states": [0]}
+    index -= c1
+    o2 = _small_options(2)
+    r = index % 9; index //= 9
+    f = index % 4; index //= 4
+    b = index % len(o2); a = index // len(o2)
+    finals = [[0], [1], [0, 1], [1, 0]][f]
+    return {"rewards": [F(r // 3), F(r % 3)], "players": [o2[a][0], o2[b][0]], "transition_list": [list(o2[a][1]), list(o2[b][1])],
+            "final_states": finals}
+
+
 def gen_no_reach(rng):
     """No non-final state can reach a final state: the finals are isolated (or every state is final)."""
     gd = gen_acy(rng, nmax=8) if rng.random() < 0.5 else (gen_cyc(rng, nmax=8) or gen_acy(rng, nmax=8))
@@ -970,6 +1006,8 @@ def gen_class(rng, cls, **kw):
         gd = gen_mix(rng)
         gd.pop("_features", None)
         return gd
+    if cls == "G-SMALLX":
+        return small_game(rng.randrange(small_game_count()))
     if cls == "G-NOREACH":
         return gen_no_reach(rng)
     if cls == "G-TINYB":
